@@ -244,7 +244,7 @@ def run(tier, seed):
     with C.Scratch("c12") as scratch:
         from . import implenv
         m = implenv.setup(scratch)
-        maxlen, nrandom, nquad = (5, 400, 25) if tier == "quick" else (6, 5000, 250)
+        maxlen, nrandom, nquad = (5, 400, 25) if tier == "quick" else (6, 20000, 1000)
         strs, terms = regex_cases(rng, maxlen, nrandom)
         try:
             res = C.run_coq_cases("c12", HEADER, terms, "re_now", shard=1500, case_type="ustr * option parts")
